@@ -14,7 +14,8 @@
 (***************************************************************************)
 EXTENDS ExactRigid, Json
 
-CONSTANTS QS, PS, AS, GS      \* rotations, axis points, axial translations <<an, ad>>, planar Gaussian angles
+CONSTANTS QS, PS, AS, GS,     \* rotations, axis points, axial translations <<an, ad>>, planar Gaussian angles
+          QU, KS              \* rotations and multipliers for the two-argument form exp(S, theta)
 
 ScrewM(q, p, an, ad) ==
   Compose(Compose(Compose(Trans(p, 1), Mk(QCanon(q), <<0,0,0>>, 1)), Trans(Scale3(an, << q[2], q[3], q[4] >>), ad)),
@@ -42,7 +43,23 @@ Screw2(g, p) ==
   /\ c' = [k |-> "screw2", g |-> g, p |-> p]
   /\ m' = Hom(ScrewM(<< g[1], 0, 0, g[2] >>, p, 0, 1))
 
+\* the two-argument form: S is the UNIT twist of the zero-pitch screw (q, p) and theta = n * angle(q),
+\* n possibly 0 or negative; by the one-parameter-subgroup law the result is the n-th power
+UnitExp3(q, p, n) ==
+  /\ c.k = "none"
+  /\ << q[2], q[3], q[4] >> # <<0,0,0>>
+  /\ c' = [k |-> "unit3", q |-> q, p |-> p, n |-> n]
+  /\ m' = Hom(Pow(ScrewM(q, p, 0, 1), n))
+
+UnitExp2(g, p, n) ==
+  /\ c.k = "none"
+  /\ p[3] = 0 /\ g[2] # 0
+  /\ c' = [k |-> "unit2", g |-> g, p |-> p, n |-> n]
+  /\ m' = Hom(Pow(ScrewM(<< g[1], 0, 0, g[2] >>, p, 0, 1), n))
+
 Next ==
+  \/ \E q \in QU : \E p \in PS : \E n \in KS : UnitExp3(q, p, n)
+  \/ \E g \in GS : \E p \in PS : \E n \in KS : UnitExp2(g, p, n)
   \/ \E q \in QS : \E p \in PS : \E a \in AS : Screw3(q, p, a)
   \/ \E t \in PS : Translation(t)
   \/ \E g \in GS : \E p \in PS : Screw2(g, p)
@@ -61,6 +78,12 @@ AxialShift ==
     Scale3(a[2], img.v) = Scale3(img.d, Add3(Scale3(a[2], p), Scale3(a[1], v)))
 ValidAll == \A q \in QS : \A p \in PS : \A a \in AS :
               << q[2], q[3], q[4] >> # <<0,0,0>> => Valid(ScrewM(q, p, a[1], a[2]))
+
+\* one-parameter subgroup: exp(S, (j+k) theta) = exp(S, j theta) exp(S, k theta); exp(S, 0) = identity
+Subgroup == \A q \in QU : \A p \in PS : << q[2], q[3], q[4] >> # <<0,0,0>> =>
+              LET M == ScrewM(q, p, 0, 1) IN
+              /\ Canon(Pow(M, 0)) = Canon(Ident)
+              /\ \A i, k \in KS : (i + k) \in KS => Canon(Compose(Pow(M, i), Pow(M, k))) = Canon(Pow(M, i + k))
 
 EdgeOut == PrintT(ToJson([c |-> c', m |-> m']))
 =============================================================================
